@@ -1324,12 +1324,15 @@ impl<D: TextDecorator> SubRenderer<D> {
             avail: self.width,
             prefix: prefix_len,
             min: min_width,
-            result: if new_width < min_width && !self.options.allow_width_overflow {
+            result: if (new_width < min_width || prefix_len > self.width)
+                && !self.options.allow_width_overflow
+            {
                 None
             } else {
                 Some(new_width.max(min_width))
             },
-            overflowed: new_width < min_width && self.options.allow_width_overflow,
+            overflowed: (new_width < min_width || prefix_len > self.width)
+                && self.options.allow_width_overflow,
         }));
         // Too narrow if the content doesn't fit next to the prefix, or if
         // the prefix alone is already wider than what we have.
